@@ -56,6 +56,8 @@ def c02(tier):
         sc = {"prop": "C02", "cfgs": chains2(cfgs(kinds, [n]), sma(2)), "alphabet": [-2, 0, 3], "unit": 1, "maxlen": L, "extras": True}
         run.submit(p1_job, "w-chain-n%d" % n, "MC_Def", sc)
     f32_job(run, "C02", cfgs(kinds, [2, 3]), [-2, 0, 1, 3], 6)
+    # -0.0 among the inputs (symbol 2147483647; the number 0 to the definitions): "non-negative", ties and zero bases must treat it as 0
+    run.submit(p1_job, "w-negzero", "MC_Def", {"prop": "C02", "cfgs": cfgs(kinds, [2, 3]), "alphabet": [-2, 0, 2147483647, 3], "unit": 1, "maxlen": 5, "extras": True})
     release_job(run, "C02", cfgs(kinds, [1, 3]), [-2, 0, 1, 3], 6, extras=True)
     inv_ = ["HLNormalizer", "Roc", "BinaryEntropy", "Vsct"]      # (Vst is x itself on a flat window: neither invariant nor always linear)
     for k_ in (-70, 60):
@@ -124,6 +126,7 @@ def c05(tier):
             with_model(run, "rsi-n%d-a%d" % (n, alpha[0]), sc)
     run.submit(apalache_job, "Ind_MyRsi")
     f32_job(run, "C05", cfgs(kinds, [1, 2, 3]), [-2, 0, 2], 6)
+    run.submit(p1_job, "rsi-negzero", "MC_Def", {"prop": "C05", "cfgs": cfgs(kinds, [1, 2, 3]), "alphabet": [-2, 0, 2147483647, 3], "unit": 1, "maxlen": 5})
     release_job(run, "C05", cfgs(kinds, [1, 2, 3]), [-2, 0, 1, 3], 6)
     # the same definitions in units of 2^-70 and 2^60 (G and L scale with the input, their ratio does not: no absolute threshold)
     for k_ in (-70, 60):
@@ -180,6 +183,7 @@ def c06(tier):
     run.submit(p3_stream_job, "trend-big", "C06", big)
     run.submit(p3_stream_job, "trend-sweep", "C06", window_sweep(rnd, kinds, lo=-30, hi=30, ns=[n for n in SWEEP_NS if n <= 66]))
     f32_job(run, "C06", cfgs(kinds, [3, 4]), [-2, 0, 1, 3], 6)
+    run.submit(p1_job, "trend-negzero", "MC_Def", {"prop": "C06", "cfgs": cfgs(kinds, [3]), "alphabet": [-2, 0, 2147483647, 3], "unit": 1, "maxlen": 6})
     # over what an inner view delivers (a withheld first value, held values)
     run.submit(p1_job, "trend-chain", "MC_Def", {"prop": "C06", "cfgs": [dict(c, c=[i]) for c in cfgs(kinds, [3]) for i in (sma(2), {"k": "Roc", "n": 1}, {"k": "Max", "n": 2})],
                                         "alphabet": [-2, 0, 1, 3], "unit": 1, "maxlen": 6})
